@@ -363,3 +363,103 @@ mod alloc_vec {
     #[cfg(feature = "std")]
     pub use std::vec::Vec;
 }
+
+// ---- C08 (lookups): read-only wrappers around crate-private lookup machinery ----
+
+/// `LookupGate::num_slots`
+pub fn lookup_gate_num_slots(config: &crate::plonk::circuit_data::CircuitConfig) -> usize {
+    crate::gates::lookup::LookupGate::num_slots(config)
+}
+
+/// `LookupTableGate::num_slots`
+pub fn lookup_table_gate_num_slots(config: &crate::plonk::circuit_data::CircuitConfig) -> usize {
+    crate::gates::lookup_table::LookupTableGate::num_slots(config)
+}
+
+/// Coefficients (low degree first) of `vanishing_poly::get_lut_poly`.
+pub fn get_lut_poly_coeffs<F: RichField + Extendable<D>, const D: usize>(
+    common_data: &CommonCircuitData<F, D>,
+    lut_index: usize,
+    deltas: &[F],
+    degree: usize,
+) -> Vec<F> {
+    crate::plonk::vanishing_poly::get_lut_poly::<F, D>(common_data, lut_index, deltas, degree).coeffs
+}
+
+/// `get_lut_poly(..).eval(point)`, exactly as `compute_quotient_polys` / `check_lookup_constraints` use it.
+pub fn get_lut_poly_eval<F: RichField + Extendable<D>, const D: usize>(
+    common_data: &CommonCircuitData<F, D>,
+    lut_index: usize,
+    deltas: &[F],
+    degree: usize,
+    point: F,
+) -> F {
+    crate::plonk::vanishing_poly::get_lut_poly::<F, D>(common_data, lut_index, deltas, degree).eval(point)
+}
+
+/// `prover::compute_lookup_polys` for one challenge set; result[poly][row].
+pub fn compute_lookup_polys<F: RichField + Extendable<D>, C: GenericConfig<D, F = F>, const D: usize>(
+    witness: &crate::iop::witness::MatrixWitness<F>,
+    deltas: &[F; 4],
+    prover_data: &crate::plonk::circuit_data::ProverOnlyCircuitData<F, C, D>,
+    common_data: &CommonCircuitData<F, D>,
+) -> Vec<Vec<F>> {
+    crate::plonk::prover::verif_compute_lookup_polys::<F, C, D>(witness, deltas, prover_data, common_data)
+}
+
+/// Overwrite one cell of a full witness (to model a dishonest prover's trace).
+pub fn matrix_witness_set<F: Field>(
+    witness: &mut crate::iop::witness::MatrixWitness<F>,
+    row: usize,
+    column: usize,
+    value: F,
+) {
+    witness.wire_values[column][row] = value;
+}
+
+/// (rows, columns) of a full witness.
+pub fn matrix_witness_dims<F: Field>(witness: &crate::iop::witness::MatrixWitness<F>) -> (usize, usize) {
+    (witness.wire_values.first().map_or(0, |c| c.len()), witness.wire_values.len())
+}
+
+/// `vanishing_poly::check_lookup_constraints` (verifier side; the module is crate-private).
+pub fn check_lookup_constraints<F: RichField + Extendable<D>, const D: usize>(
+    common_data: &CommonCircuitData<F, D>,
+    vars: EvaluationVars<F, D>,
+    local_lookup_zs: &[F::Extension],
+    next_lookup_zs: &[F::Extension],
+    lookup_selectors: &[F::Extension],
+    deltas: &[F; 4],
+) -> Vec<F::Extension> {
+    crate::plonk::vanishing_poly::check_lookup_constraints::<F, D>(
+        common_data,
+        vars,
+        local_lookup_zs,
+        next_lookup_zs,
+        lookup_selectors,
+        deltas,
+    )
+}
+
+/// `vanishing_poly::check_lookup_constraints_batch` (prover side) at point `index` of a batch.
+#[allow(clippy::too_many_arguments)]
+pub fn check_lookup_constraints_batch<F: RichField + Extendable<D>, const D: usize>(
+    common_data: &CommonCircuitData<F, D>,
+    vars_batch: EvaluationVarsBaseBatch<F>,
+    index: usize,
+    local_lookup_zs: &[F],
+    next_lookup_zs: &[F],
+    lookup_selectors: &[F],
+    deltas: &[F; 4],
+    lut_re_poly_evals: &[F],
+) -> Vec<F> {
+    crate::plonk::vanishing_poly::check_lookup_constraints_batch::<F, D>(
+        common_data,
+        vars_batch.view(index),
+        local_lookup_zs,
+        next_lookup_zs,
+        lookup_selectors,
+        deltas,
+        lut_re_poly_evals,
+    )
+}
